@@ -31,10 +31,10 @@ def short(b: bytes) -> str:
     return f"L{len(b)}.{b[:16].hex()}.{b[-8:].hex()}"
 
 
-def run_real(case):
+def run_real(case, transport="websockets"):
     obs = []
     w = World()
-    c = mk_client(w, proto=4, transport="websockets")
+    c = mk_client(w, proto=4, transport=transport)
     c.on_socket_register_write = lambda cl, ud, so: None
     c.on_socket_unregister_write = lambda cl, ud, so: None
     c.connect("broker", 1883, 60)
@@ -68,7 +68,9 @@ def run_real(case):
                     before = len(s.wire)
                     rc = c._packet_write()
                     s.outscript.clear()
-                    obs.append(f"rc={RC.get(int(rc), int(rc))} q={len(c._out_packet)} sb={len(c._sock._sendbuffer)} "
+                    mid = (f"sb={len(c._sock._sendbuffer)}" if transport == "websockets" else
+                           f"pos={c._out_packet[0]['pos'] if c._out_packet else 0}")
+                    obs.append(f"rc={RC.get(int(rc), int(rc))} q={len(c._out_packet)} {mid} "
                                f"wire={len(s.wire) - base} new={short(bytes(s.wire[before:]))}")
                 elif t[0] == "dump":
                     obs.append("WIRE=" + hx(bytes(s.wire[base:])))
@@ -169,4 +171,52 @@ class WsWriterStream:
         return any(" sb=" in o and " sb=0" not in o for o in obs)
 
 
-STREAMS = [WsWriterStream()]
+def mon_C06_tcp(stream, case, obs):
+    """raw TCP, independent of the model: after the final drain the bytes on the wire are exactly the appended packets in
+    order; before it, a prefix of them"""
+    if len(obs) < 2 or not obs[-1].startswith("WIRE="):
+        return []
+    data = unhx(obs[-1][5:]) if len(obs[-1]) > 5 else b""
+    allb = b""
+    for line in case:
+        t = line.split()
+        if t[0] == "enq":
+            allb += unhx(t[1])
+        elif t[0] == "enqz":
+            allb += bytes([int(t[2])]) * int(t[1])
+    last = obs[-2]
+    if "rc=success" in last and " q=0 " in last:
+        if data != allb:
+            k = next((j for j, (a, b) in enumerate(zip(data, allb)) if a != b), min(len(data), len(allb)))
+            return [(len(case) - 1, "stream-corrupt", f"after the drain the wire has {len(data)} bytes for {len(allb)} queued; first difference at byte {k}")]
+    elif not allb.startswith(data):
+        return [(len(case) - 1, "stream-corrupt", "the bytes on the wire are not a prefix of the queued packets")]
+    return []
+
+
+class TcpWriterStream(WsWriterStream):
+    """the same appends and _packet_write() calls over a raw TCP socket: every send() may take any part of what it is
+    given (model Paho.Model.TcpWriter)"""
+    name = "tcpwriter"
+    monitors = {"C06": mon_C06_tcp}
+
+    def real(self, case):
+        return run_real(case, transport="tcp")
+
+    def features(self, case, obs):
+        f = set()
+        for line, o in zip(case, obs):
+            t = line.split()
+            if t[0] == "write":
+                for wd in o.split():
+                    if wd.startswith("rc="):
+                        f.add("tcp-" + wd)
+                if " pos=" in o and " pos=0" not in o:
+                    f.add("tcp-partly-written-head")
+        return f
+
+    def nontrivial(self, case, obs):
+        return any(" pos=" in o and " pos=0" not in o for o in obs)
+
+
+STREAMS = [WsWriterStream(), TcpWriterStream()]
